@@ -217,6 +217,125 @@ Example C07_exnet_values :
   map (fun f => f [1%Z]) (nth 1 (ceval_plain Z 0%Z Z.add Z.mul C07_exnet x) []) = [11; 32]%Z.
 Proof. vm_compute. split; reflexivity. Qed.
 
+(* ================================================================ GENERATED MODEL (second tie, by translation)
+   Gen/ImportGen.v is rewritten on every run by translator/import2coq.py from the SOURCE of the tree under test:
+   remove_bn_inplace / fuse_pit_modules / convert (plinio/methods/pit/graph.py), fuse_bn_inplace / fuse_mps_modules
+   (plinio/methods/mps/graph.py), fuse_consecutive_layers (plinio/graph/transformation.py), __init__ and forward of PITConv1d /
+   PITConv2d / PITLinear.  One output channel at a time over Q; torch.rsqrt is an ARBITRARY function rsqrt : Q -> Q (every
+   statement holds for every such function; the *_ok predicates record that its argument var + eps must be positive); the fx graph
+   is an abstract state with observation / effect functions.  Proofs/ImportGen.v proves the generated functions equal to the
+   hand-written model above; the statements below are about the code as it is NOW. *)
+Require Import Plinio.Gen.ImportGen Plinio.Proofs.ImportGen.
+
+(* --- remove_bn_inplace: the layer it leaves behind is import_layer (BatchNorm attached and flag = the fusion's flag; with
+   fold: weight * (gamma * rsqrt(var+eps)), bias (b - mean) * rsqrt(var+eps) * gamma + beta, affine=False and bias=None included) *)
+Theorem C07_generated_remove_bn_inplace : forall rsqrt L bn fold, m_track bn = true ->
+  exists L', remove_bn_inplace_gen rsqrt L bn fold = Some L' /\
+             seqv (to_slayer rsqrt L') (import_layer fold (g_w L) (g_b L) (Some (bnp_of rsqrt bn))).
+Proof. exact remove_bn_inplace_gen_eq. Qed.
+
+Theorem C07_generated_remove_bn_raises : forall rsqrt L bn fold, m_track bn = false -> remove_bn_inplace_gen rsqrt L bn fold = None.
+Proof. exact remove_bn_inplace_gen_raises. Qed.
+
+(* definedness: the only partial operation on an evaluated path is rsqrt, whose argument is positive when var + eps > 0 *)
+Theorem C07_generated_remove_bn_defined : forall rsqrt L bn fold, (0 < m_var bn + m_eps bn)%Q -> remove_bn_inplace_ok rsqrt L bn fold = true.
+Proof. exact remove_bn_inplace_defined. Qed.
+
+(* --- MPS: fuse_bn_inplace computes the same folded weight and bias, and the fused plain layer = BatchNorm(eval) o layer *)
+Theorem C07_generated_mps_fuse_bn : forall rsqrt L bn, m_track bn = true ->
+  exists L', fuse_bn_inplace_gen rsqrt L bn = Some L' /\
+             weq (g_w L') (fold_w (bnp_of rsqrt bn) (g_w L)) /\ oqeq (g_b L') (Some (fold_b (bnp_of rsqrt bn) (g_b L))) /\
+             g_bn L' = g_bn L /\ g_fold L' = g_fold L.
+Proof. exact fuse_bn_inplace_gen_eq. Qed.
+
+Theorem C07_generated_mps_fold_identity : forall rsqrt L bn x, m_track bn = true ->
+  exists L', fuse_bn_inplace_gen rsqrt L bn = Some L' /\ (plain (g_w L') (g_b L') x == bn_eval rsqrt bn (plain (g_w L) (g_b L) x))%Q.
+Proof. exact gen_mps_fold_identity. Qed.
+
+Theorem C07_generated_mps_fuse_bn_defined : forall rsqrt L bn, (0 < m_var bn + m_eps bn)%Q -> fuse_bn_inplace_ok rsqrt L bn = true.
+Proof. exact fuse_bn_inplace_defined. Qed.
+
+(* --- the constructors copy weight and bias (None stays None), start without BatchNorm, with the flag they are given *)
+Theorem C07_generated_init : forall fresh w ob fold,
+  pit_conv1d_init_gen fresh w ob fold = Some (fresh_layer w ob fold) /\
+  pit_conv2d_init_gen fresh w ob fold = Some (fresh_layer w ob fold) /\
+  pit_linear_init_gen fresh w ob fold = Some (fresh_layer w ob fold).
+Proof. intros. repeat split; [apply pit_conv1d_init_gen_eq|apply pit_conv2d_init_gen_eq|apply pit_linear_init_gen_eq]. Qed.
+
+(* --- the forwards are pit_out with the bias masked (conv2d / linear: no time mask) *)
+Theorem C07_generated_forward_conv1d : forall rsqrt L tm cm x,
+  (pit_conv1d_forward_gen rsqrt L tm cm x == pit_out true tm cm (to_slayer rsqrt L) x)%Q.
+Proof. exact pit_conv1d_forward_gen_eq. Qed.
+Theorem C07_generated_forward_conv2d : forall rsqrt K L cm x, Forall (fun row => length row = K) (g_w L) ->
+  (pit_conv2d_forward_gen rsqrt L cm x == pit_out true (repeat true K) cm (to_slayer rsqrt L) x)%Q.
+Proof. exact pit_conv2d_forward_gen_eq. Qed.
+Theorem C07_generated_forward_linear : forall rsqrt K L cm x, Forall (fun row => length row = K) (g_w L) ->
+  (pit_linear_forward_gen rsqrt L cm x == pit_out true (repeat true K) cm (to_slayer rsqrt L) x)%Q.
+Proof. exact pit_linear_forward_gen_eq. Qed.
+Theorem C07_generated_forward_defined : forall rsqrt L tm cm x, match g_bn L with Some m => (0 < m_var m + m_eps m)%Q | None => True end ->
+  pit_conv1d_forward_ok rsqrt L tm cm x = true /\ pit_conv2d_forward_ok rsqrt L cm x = true /\ pit_linear_forward_ok rsqrt L cm x = true.
+Proof. exact forward_defined. Qed.
+
+(* --- THE SENTENCE on the generated code: a Conv1d / Conv2d / Linear (any weights, with or without bias) followed or not by a
+   BatchNorm (affine or not), wrapped by the generated constructor + remove_bn_inplace (fold_bn on or off) and run by the
+   generated forward with the masks of the initial parameters, computes what the original computes in eval mode, on every input *)
+Theorem C07_generated_wrap_identity_conv1d : forall rsqrt K C c fresh w ob bn fold x,
+  (c < C)%nat -> Forall (fun row => length row = K) w -> tracked bn ->
+  exists L, import_gen rsqrt pit_conv1d_init_gen fresh w ob bn fold = Some L /\
+    (pit_conv1d_forward_gen rsqrt L (open_time_mask K) (nth c (open_features_mask C) false) x == original rsqrt w ob bn x)%Q.
+Proof. exact gen_wrap_identity_conv1d. Qed.
+Theorem C07_generated_wrap_identity_conv2d : forall rsqrt K C c fresh w ob bn fold x,
+  (c < C)%nat -> Forall (fun row => length row = K) w -> tracked bn ->
+  exists L, import_gen rsqrt pit_conv2d_init_gen fresh w ob bn fold = Some L /\
+    (pit_conv2d_forward_gen rsqrt L (nth c (open_features_mask C) false) x == original rsqrt w ob bn x)%Q.
+Proof. exact gen_wrap_identity_conv2d. Qed.
+Theorem C07_generated_wrap_identity_linear : forall rsqrt K C c fresh w ob bn fold x,
+  (c < C)%nat -> Forall (fun row => length row = K) w -> tracked bn ->
+  exists L, import_gen rsqrt pit_linear_init_gen fresh w ob bn fold = Some L /\
+    (pit_linear_forward_gen rsqrt L (nth c (open_features_mask C) false) x == original rsqrt w ob bn x)%Q.
+Proof. exact gen_wrap_identity_linear. Qed.
+
+(* --- the fusion pass.  (1) fuse_consecutive_layers as fuse_pit_modules calls it (in_place flag and copy-or-not read from the
+   source), on the object graph of Model/Import.v with one call site per module and no producer read by two BatchNorms, IS the
+   fusion step of the hand-written conversion, ValueError included: so is every theorem above about `convert` *)
+Theorem C07_generated_fuse_pass : forall c mods hs, NoDup (flat_map (bnp mods) (seq 0 (length mods))) ->
+  inst_fuse c mods fuse_pit_in_place (seq 0 (length mods)) hs = step_fuse c mods 0 hs.
+Proof. exact gen_fuse_is_step_fuse. Qed.
+
+Theorem C07_generated_fuse_keeps_user_objects : forall c mods n h0 h s h' s',
+  c_copyfuse c = fuse_pit_copy -> NoDup (flat_map (bnp mods) (seq 0 (length mods))) -> UP n h0 h ->
+  inst_fuse c mods fuse_pit_in_place (seq 0 (length mods)) (h, s) = Some (h', s') -> UP n h0 h'.
+Proof. exact gen_fuse_keeps_user_objects. Qed.
+
+Theorem C07_generated_fuse_sets_flag : forall c mods h s h' s',
+  c_setflag c = true -> NoDup (flat_map (bnp mods) (seq 0 (length mods))) -> Forall (FB c) h ->
+  inst_fuse c mods fuse_pit_in_place (seq 0 (length mods)) (h, s) = Some (h', s') -> Forall (FB c) h'.
+Proof. exact gen_fuse_sets_flag. Qed.
+
+(* (2) whatever the graph (any observations, any number of call sites): a first layer is handed to the fusion function at most once *)
+Theorem C07_generated_fuse_pair_once : forall (cm an acm sec fst_ : nat -> bool) (users a0t tgt : nat -> nat) (sites : list nat -> nat -> nat) ip nodes s,
+  fuse_consecutive_layers_gen (list nat) (fun _ => cm) (fun _ => an) (fun _ => acm) (fun _ => sec) (fun _ => fst_)
+    (fun _ => users) (fun _ => a0t) (fun _ => tgt) sites (log_fuse a0t) (log_fuse a0t) (fun _ s => s) ip nodes [] = Some s -> NoDup s.
+Proof. exact gen_fuse_pair_once. Qed.
+
+(* (3) the call-site handling on concrete graphs: fused / ValueError (other users) / fused once / ValueError (different second
+   layers) / ValueError (first layer also used alone) / left alone *)
+Theorem C07_generated_fuse_call_sites : (
+  ex_fuse [10; 11] [None; Some 0] [0; 1] [11] [10] (fun _ => 1) = Some [10] /\
+  ex_fuse [10; 11] [None; Some 0] [0; 2] [11] [10] (fun _ => 1) = None /\
+  ex_fuse [10; 11; 10; 11] [None; Some 0; Some 1; Some 2] [0; 1; 1; 1] [11] [10] (fun _ => 2) = Some [10] /\
+  ex_fuse [10; 11; 10; 12] [None; Some 0; Some 1; Some 2] [0; 1; 1; 1] [11; 12] [10] (fun _ => 2) = None /\
+  ex_fuse [10; 11; 10; 11; 10] [None; Some 0; Some 1; Some 2; Some 3] [0; 1; 1; 1; 1] [11] [10] (fun _ => 3) = None /\
+  ex_fuse [10; 11] [None; Some 0] [0; 1] [11] [] (fun _ => 1) = Some [])%nat.
+Proof. exact gen_fuse_call_sites. Qed.
+
+(* --- the numbers the check compares: the generated folding (PIT and MPS) gives exactly run_fold *)
+Theorem C07_generated_run_fold : forall g be mu r w ob,
+  run_fold_gen g be mu r w ob =
+    (let v := run_fold (match g with Some x => x | None => 1 end) (match be with Some x => x | None => 0 end) mu r w ob in
+     Some (fst v, snd v, fst v, snd v)).
+Proof. exact gen_run_fold. Qed.
+
 Print Assumptions C07_open_time_mask.
 Print Assumptions C07_open_features_mask.
 Print Assumptions C07_open_masks_identity.
@@ -240,3 +359,23 @@ Print Assumptions C07_import_sound_network.
 Print Assumptions C07_import_export_sound_network.
 Print Assumptions C07_import_export_sizes.
 Print Assumptions C07_export_params_open.
+Print Assumptions C07_generated_remove_bn_inplace.
+Print Assumptions C07_generated_remove_bn_raises.
+Print Assumptions C07_generated_remove_bn_defined.
+Print Assumptions C07_generated_mps_fuse_bn.
+Print Assumptions C07_generated_mps_fold_identity.
+Print Assumptions C07_generated_mps_fuse_bn_defined.
+Print Assumptions C07_generated_init.
+Print Assumptions C07_generated_forward_conv1d.
+Print Assumptions C07_generated_forward_conv2d.
+Print Assumptions C07_generated_forward_linear.
+Print Assumptions C07_generated_forward_defined.
+Print Assumptions C07_generated_wrap_identity_conv1d.
+Print Assumptions C07_generated_wrap_identity_conv2d.
+Print Assumptions C07_generated_wrap_identity_linear.
+Print Assumptions C07_generated_fuse_pass.
+Print Assumptions C07_generated_fuse_keeps_user_objects.
+Print Assumptions C07_generated_fuse_sets_flag.
+Print Assumptions C07_generated_fuse_pair_once.
+Print Assumptions C07_generated_fuse_call_sites.
+Print Assumptions C07_generated_run_fold.
